@@ -2436,6 +2436,18 @@ def next_scans_to_loops(trees, inv):
                     while i < len(blk):
                         st = blk[i]
                         v = getattr(st, "value", None)
+                        # `g = (E for ..)` directly before `r = next(g, D)`, g used nowhere else: the generator written into the call
+                        if i > 0 and isinstance(st, ast.Assign) and isinstance(v, ast.Call) and isinstance(v.func, ast.Name) and v.func.id == "next" and len(v.args) == 2 \
+                                and isinstance(v.args[0], ast.Name):
+                            prev = blk[i - 1]
+                            gname = v.args[0].id
+                            if isinstance(prev, ast.Assign) and len(prev.targets) == 1 and isinstance(prev.targets[0], ast.Name) and prev.targets[0].id == gname \
+                                    and isinstance(prev.value, ast.GeneratorExp) and sum(1 for y in ast.walk(fn) if isinstance(y, ast.Name) and y.id == gname) == 2:
+                                v.args[0] = prev.value
+                                del blk[i - 1]
+                                i -= 1
+                                st = blk[i]
+                                v = st.value
                         if isinstance(st, ast.Assign) and len(st.targets) == 1 and isinstance(st.targets[0], ast.Name) and isinstance(v, ast.Call) \
                                 and isinstance(v.func, ast.Name) and v.func.id == "next" and len(v.args) == 2 and not v.keywords \
                                 and isinstance(v.args[0], ast.GeneratorExp) and len(v.args[0].generators) == 1 and _effect_free(v.args[1]):
@@ -2514,7 +2526,10 @@ def canonicalise(trees, specialise=True):
     notes += drop_guards_of_the_lookup_that_follows(trees, inv)
     notes += fromkeys_to_dictcomps(trees, inv)
     notes += listcomps_to_loops(trees, inv)
-    notes += next_scans_to_loops(trees, inv)
+    scans = next_scans_to_loops(trees, inv)
+    notes += scans
+    if scans:
+        notes += enumerate_index_only(trees, inv)
     done = inline_new_helpers(trees, inv, news)
     for c, h in done:
         notes.append("inlined new helper %s into %s" % (h, c))
